@@ -285,6 +285,7 @@ pub fn check_transcript(s: &Session, t: &Transcript, ctx: &mut Ctx) -> Result<()
                             }
                         }
                     }
+                    Cmd::SearchPaged { .. } => None,
                     Cmd::Wait(_) | Cmd::WaitParsed => None,
                 };
                 if let Some(e) = expect {
